@@ -4,6 +4,7 @@ Real code: cnfgen.utils.solver (whole bridge), CNF.solve/is_satisfiable,
 CNF.to_dimacs.  Stubs: the solver peers (detsim.simproc), fed through a fake
 ``subprocess`` namespace; temp files are real files in a private directory.
 """
+import importlib
 import os
 import sys
 import tempfile
@@ -123,6 +124,20 @@ def generate(rng, config):
         calls.append(_gen_call(rng, installed, foreign))
     case = {"config": config, "n": n, "clauses": clauses,
             "installed": installed, "calls": calls, "plan": {}}
+    if len(calls) >= 2 and rng.random() < 0.5:
+        # the set of installed solvers changes between two calls of the
+        # same process (a solver is installed / removed meanwhile)
+        names2 = [s for s in SUPPORTED if rng.random() < 0.3]
+        if rng.random() < 0.3:
+            names2 = []
+        inst2 = {s: {"convention": REFERENCE_CONVENTION[s],
+                     "shape": random_shape(rng),
+                     "help_rc": rng.choice([0, 0, 1])} for s in names2}
+        for f in foreign:
+            if rng.random() < 0.5:
+                inst2[f] = installed[f]
+        case["installed_later"] = {"from_call": rng.randint(1, len(calls) - 1),
+                                   "installed": inst2}
     if config == "failing":
         case["plan"] = _gen_plan(rng)
     elif config == "extended":
@@ -276,6 +291,9 @@ def _invoke(F, c, arg):
 
 
 def execute(case, ctx):
+    # canonical reset: no state of the bridge may survive from an earlier
+    # run of this process (module-level caches are re-created)
+    importlib.reload(solvermod)
     F = _build_formula(case)
     n = case["n"]
     clauses = [tuple(c) for c in case["clauses"]]
@@ -296,6 +314,12 @@ def execute(case, ctx):
     tempfile.tempdir = tmp
     try:
         for ci, c in enumerate(case["calls"]):
+            later = case.get("installed_later")
+            if later and ci >= later["from_call"]:
+                if installed is not later["installed"]:
+                    ctx.fault("installed_set_changed_between_calls")
+                installed = later["installed"]
+                case = dict(case, installed=installed)
             route = expected_route(c, installed)
             enum_cut = (plan.get("cut_at") == "all" and route[0] == "run")
             if enum_cut:
